@@ -430,8 +430,15 @@ func (v *FS) Remove(name string) error {
 
 // RemoveAll removes name and everything below it; a missing name is not an error.
 func (v *FS) RemoveAll(name string) error {
-	n, parent, base, rp, err := v.walk("remove", name, false)
-	if err != nil || n == nil || parent == nil {
+	n, parent, base, rp, err := v.walk("unlinkat", name, false)
+	if err != nil {
+		// a missing path is fine; a path through a non-directory is an error, as for os.RemoveAll
+		if underlying(err) == syscall.ENOENT {
+			return nil
+		}
+		return err
+	}
+	if n == nil || parent == nil {
 		return nil
 	}
 	delete(parent.children, base)
